@@ -36,7 +36,7 @@ import os
 from pathlib import Path
 from pydra.utils import typing as PT
 from pydra.utils.typing import TypeParser, MultiInputObj
-from vf.oracles.typing_conf import conforms, str_mangled
+from vf.oracles.typing_conf import conforms, str_mangled, same_value
 T.assert_repo(PT)
 
 def _c20(tp, v):
@@ -54,7 +54,7 @@ def _c20(tp, v):
         again = TypeParser(tp)(out)
     except TypeError as e:
         return "TypeParser(%s): accepted value %r -> %r is rejected when coerced again (%s)" % (tp, v, out, e)
-    if not (again == out) or type(again) is not type(out):
+    if not same_value(again, out):
         return "TypeParser(%s): coercing %r again gives %r" % (tp, out, again)
     return None
 '''
